@@ -108,6 +108,7 @@ def main(argv):
     ap.add_argument('--max-show', type=int, default=6)
     ap.add_argument('--no-evidence', action='store_true')
     ap.add_argument('--write-baseline', action='store_true')
+    ap.add_argument('--selftest', action='store_true')
     args = ap.parse_args(argv)
     if args.tier not in ('quick', 'thorough'):
         args.tier = 'quick'
@@ -116,6 +117,9 @@ def main(argv):
     if args.replay:
         from . import replaycmd
         return replaycmd.main(args.replay)
+    if args.selftest:
+        from . import selftest
+        return selftest.main()
 
     props = load_properties()
     t0 = time.time()
